@@ -357,7 +357,9 @@ def check(run, views, tier):
         if done:
             check_builder(run, F)
             from ..engine import include
-            from . import c14
+            from . import c08, c14
+            # "a body that decodes to exactly the request and its payload bytes": the request stream and the payload bridge (C08)
+            include(run, c08, {cfg: {"ipp": F}}, tier)
             from .c12 import check_statics
             include(run, c14, {cfg: {"ipp": F}}, tier, "path-term", "authority-term", "output-shape", "not-pass-through", "explicit-port-altered", "http_scheme",
                     "unrecognised-port-test", "maps-configured-uri")
